@@ -69,6 +69,12 @@ impl Actor for Target {
             Err("pre_start failed".into())
         }
     }
+    async fn post_start(&self, _: ActorRef<u64>, _: &mut ()) -> Result<(), ActorProcessingErr> {
+        // flavour `thr`: the start ran on a thread registered with a ThreadCtl; the actor's own
+        // loop (same thread) is not stepped any more (a no-op on unregistered threads)
+        verif::thread_unregister();
+        Ok(())
+    }
     async fn handle(&self, _: ActorRef<u64>, m: u64, _: &mut ()) -> Result<(), ActorProcessingErr> {
         self.shared.lock().unwrap().handled.push(m);
         Ok(())
@@ -477,6 +483,175 @@ impl World {
     }
 }
 
+/// Flavour `thr`: `spawn_instant` / `spawn_linked_instant` (Send or thread-local) is called, and its start
+/// task polled, on an OS thread of its own that is registered with a `ThreadCtl`; `tbegin` lets it run to
+/// its first `status.publish` (the status check of `start` is done, `Starting` not yet published),
+/// `sstep` to the next of `status.publish` / `tree.link` (thread-local: the early link right after the
+/// publication; Send: the link after pre_start returned) — the positions of the start thread that have no
+/// await point. Casts and drains are issued from the harness thread while it is parked. The `sstep` that
+/// completes the start also ends the case: an actor nobody drained is drained, the actor is awaited.
+async fn run_thr_case(log: &mut Log, st: &mut Stats, ops: &[String], linked: bool, tl: bool) {
+    st.bump("case_thr");
+    log.rec(format!("case {}{} thr", linked as u8, if tl { " tl" } else { "" }), "ok");
+    let shared: Arc<Mutex<Shared>> = Default::default();
+    let sup = if linked {
+        let (s, _) = Actor::spawn(None, Sup { shared: shared.clone() }, ()).await.expect("sup");
+        quiesce().await;
+        Some(s)
+    } else {
+        None
+    };
+    let iref: Arc<Mutex<Option<ActorRef<u64>>>> = Default::default();
+    let result: Arc<Mutex<Option<String>>> = Default::default();
+    let mut ctl: Option<Arc<ThreadCtl>> = None;
+    let mut thread: Option<std::thread::JoinHandle<()>> = None;
+    let spawner = if tl { Some(ThreadLocalActorSpawner::new()) } else { None };
+    let (mut next, mut drained, mut over) = (0u64, false, false);
+    // `status.publish` is a stop only for `tbegin` (the publication of `Starting`); later ones (the
+    // guard's cleanup of a start that failed) are passed, so that a failing start reports its result
+    let advance = |ctl: &Arc<ThreadCtl>, result: &Arc<Mutex<Option<String>>>, grant: bool| -> String {
+        let first = !grant;
+        if grant {
+            ctl.grant();
+        }
+        loop {
+            if let Some(r) = result.lock().unwrap().clone() {
+                return format!("done={r}");
+            }
+            match ctl.wait_parked_timeout(std::time::Duration::from_millis(2)) {
+                Some(ThreadPhase::AtPoint(p)) if (first && p == "status.publish") || p == "tree.link" => return format!("at={p}"),
+                Some(ThreadPhase::AtPoint(_)) => ctl.grant(),
+                Some(ThreadPhase::Done) => return format!("done={}", result.lock().unwrap().clone().unwrap_or_else(|| "?".into())),
+                _ => {}
+            }
+        }
+    };
+    for op in ops {
+        st.bump(op.split_whitespace().next().unwrap_or("?"));
+        let t = iref.lock().unwrap().clone();
+        let mut r: String = match (op.as_str(), &t) {
+            ("tbegin", _) if ctl.is_none() => {
+                let c = ThreadCtl::new();
+                ctl = Some(c.clone());
+                let (sh, ir, rs, sp) = (shared.clone(), iref.clone(), result.clone(), spawner.clone());
+                let supc = sup.as_ref().map(|s| s.get_cell());
+                thread = Some(std::thread::spawn(move || {
+                    verif::thread_register(c.clone());
+                    let rt = tokio::runtime::Builder::new_current_thread().enable_all().build().expect("rt");
+                    rt.block_on(async move {
+                        let outcome = Arc::new(AtomicU8::new(0));
+                        let gate: Arc<Gate> = Default::default();
+                        let spawned = match sp {
+                            Some(sp) => {
+                                let args = TlArgs { shared: sh, outcome, gate };
+                                match supc {
+                                    Some(p) => TargetTl::spawn_linked_instant(None, args, p, sp),
+                                    None => TargetTl::spawn_instant(None, args, sp),
+                                }
+                            }
+                            None => {
+                                let t = Target { shared: sh, outcome, gate };
+                                match supc {
+                                    Some(p) => ractor::ActorRuntime::<Target>::spawn_linked_instant(None, t, (), p),
+                                    None => ractor::ActorRuntime::<Target>::spawn_instant(None, t, ()),
+                                }
+                            }
+                        };
+                        let (aref, jh) = spawned.expect("instant");
+                        *ir.lock().unwrap() = Some(aref);
+                        let res = jh.await;
+                        verif::thread_unregister();
+                        let (txt, handle) = match res {
+                            Ok(Ok(h)) => ("start=ok", Some(h)),
+                            Ok(Err(SpawnErr::ActorAlreadyStarted)) => ("start=err:already-started", None),
+                            Ok(Err(SpawnErr::StartupFailed(_))) => ("start=err:startup-failed", None),
+                            Ok(Err(_)) => ("start=err:other", None),
+                            Err(_) => ("start=err:join", None),
+                        };
+                        *rs.lock().unwrap() = Some(txt.to_string());
+                        if let Some(h) = handle {
+                            let _ = h.await;
+                        }
+                    });
+                    c.finish();
+                }));
+                advance(ctl.as_ref().unwrap(), &result, false)
+            }
+            ("sstep", _) if ctl.is_some() && !over => advance(ctl.as_ref().unwrap(), &result, true),
+            ("cast", Some(t)) if !over => {
+                let id = next;
+                next += 1;
+                if t.cast(id).is_ok() { "ok" } else { "err" }.to_string()
+            }
+            ("drain", Some(t)) if !over => {
+                drained = true;
+                if t.drain().is_ok() { "ok" } else { "err" }.to_string()
+            }
+            _ => "bad-op".into(),
+        };
+        if r.starts_with("done=") && !over {
+            over = true;
+            // the start is over: an actor nobody drained is drained now (so that it ends by itself,
+            // deterministically, after its backlog); then the actor is awaited
+            if let (false, Some(t)) = (drained, iref.lock().unwrap().clone()) {
+                let _ = t.drain();
+            }
+            let mut n = 0;
+            while thread.as_ref().is_some_and(|h| !h.is_finished()) && n < 5000 {
+                std::thread::sleep(std::time::Duration::from_millis(1));
+                tokio::task::yield_now().await;
+                n += 1;
+            }
+            if thread.as_ref().is_some_and(|h| !h.is_finished()) {
+                r.push_str("+hang");
+            }
+            quiesce().await;
+        }
+        let snap = {
+            let sh = shared.lock().unwrap();
+            let h: Vec<String> = sh.handled.iter().map(|x| x.to_string()).collect();
+            format!(
+                "h=[{}] st={} r={}",
+                h.join(","),
+                iref.lock().unwrap().as_ref().map(|t| format!("{:?}", t.get_status())).unwrap_or_else(|| "NoRef".into()),
+                if sup.is_some() { sh.reason.clone().unwrap_or_else(|| "-".into()) } else { "-".into() }
+            )
+        };
+        log.rec(op.clone(), format!("{r} {snap}"));
+    }
+    if let Some(c) = &ctl {
+        c.release();
+    }
+    if let Some(t) = iref.lock().unwrap().clone() {
+        t.kill();
+    }
+    if let Some(h) = thread.take() {
+        let mut n = 0;
+        while !h.is_finished() && n < 5000 {
+            std::thread::sleep(std::time::Duration::from_millis(1));
+            n += 1;
+        }
+        if h.is_finished() {
+            let _ = h.join();
+        }
+    }
+    if let Some(s) = &sup {
+        s.kill();
+    }
+    quiesce().await;
+}
+
+fn gen_thr_ops(rng: &mut Rng, linked: bool) -> Vec<String> {
+    let mut ops = vec!["tbegin".to_string()];
+    for _ in 0..(1 + linked as u64) {
+        for _ in 0..rng.range(0, 2) {
+            ops.push(if rng.chance(11, 20) { "cast" } else { "drain" }.to_string());
+        }
+        ops.push("sstep".to_string());
+    }
+    ops
+}
+
 async fn run_case(log: &mut Log, st: &mut Stats, ops: &[String], linked: bool, tl: bool, ni: bool) {
     let mut w = World::new(linked, tl, ni).await;
     st.bump(if tl { "case_tl" } else { "case_send" });
@@ -589,7 +764,11 @@ async fn replay_ops(log: &mut Log, st: &mut Stats, path: &str) {
         }
         if let Some(rest) = line.strip_prefix("case") {
             if let Some((l, t, n, ops)) = cur.take() {
-                run_case(log, st, &ops, l, t, n).await;
+                if ops.first().is_some_and(|o| o == "tbegin") {
+                    run_thr_case(log, st, &ops, l, t).await;
+                } else {
+                    run_case(log, st, &ops, l, t, n).await;
+                }
             }
             let f: Vec<&str> = rest.split_whitespace().collect();
             cur = Some((f.first() == Some(&"1"), f.contains(&"tl"), f.contains(&"ni"), vec![]));
@@ -598,7 +777,11 @@ async fn replay_ops(log: &mut Log, st: &mut Stats, path: &str) {
         }
     }
     if let Some((l, t, n, ops)) = cur.take() {
-        run_case(log, st, &ops, l, t, n).await;
+        if ops.first().is_some_and(|o| o == "tbegin") {
+            run_thr_case(log, st, &ops, l, t).await;
+        } else {
+            run_case(log, st, &ops, l, t, n).await;
+        }
     }
 }
 
@@ -668,6 +851,33 @@ async fn main() {
                         }
                     }
                 }
+            }
+        }
+        if fine {
+            // the start thread parked where `start` has no await point (flavour `thr`)
+            let shapes: [&[&str]; 4] = [
+                &["tbegin", "drain", "sstep", "sstep"],
+                &["tbegin", "cast", "sstep", "drain", "sstep"],
+                &["tbegin", "sstep", "cast", "drain", "cast", "sstep"],
+                &["tbegin", "cast", "sstep", "cast", "sstep"],
+            ];
+            for f in shapes.iter() {
+                for linked in [false, true] {
+                    for tl in [false, true] {
+                        let mut ops: Vec<String> = f.iter().map(|s| s.to_string()).collect();
+                        if !linked {
+                            // an unlinked start parks once only: its first `sstep` completes it
+                            let i = ops.iter().position(|o| o == "sstep").unwrap();
+                            ops.truncate(i + 1);
+                        }
+                        run_thr_case(&mut log, &mut st, &ops, linked, tl).await;
+                    }
+                }
+            }
+            for _ in 0..(cases / 4) {
+                let (linked, tl) = (rng.chance(2, 3), rng.chance(1, 2));
+                let ops = gen_thr_ops(&mut rng, linked);
+                run_thr_case(&mut log, &mut st, &ops, linked, tl).await;
             }
         }
         for _ in 0..cases {
